@@ -46,16 +46,17 @@ def chk_zoom(inp):
                     if not numpy.allclose(up, fn(a.real, m, order=order) + 1j * fn(a.imag, m, order=order), rtol=1e-6, atol=1e-7):
                         return bad("%s: complex data is not treated as real + i*imag" % fn.__name__)
                 # polynomials up to the spline order are reproduced exactly
-                n = 8
-                x = numpy.arange(n)
-                X, Y = numpy.meshgrid(x, x, indexing="ij")
-                P = lambda X, Y: 1 + 0.5 * X - 0.25 * Y + (0.1 * X * Y if order >= 1 else 0) + (0.03 * X ** 3 - 0.02 * X ** 2 * Y if order >= 3 else 0) + (1e-3 * Y ** 5 if order >= 5 else 0)
-                m = 19
-                xs = numpy.linspace(0, n - 1, m)
-                XX, YY = numpy.meshgrid(xs, xs, indexing="ij")
-                got = fn(P(X, Y).astype(float), (m, m), order=order)
-                if not numpy.allclose(got, P(XX, YY), rtol=1e-8, atol=1e-8):
-                    return bad("%s(order %d) does not reproduce a polynomial of degree <= order" % (fn.__name__, order), float(abs(got - P(XX, YY)).max()), 0.0)
+                # (every side the spline accepts: order+1 is the smallest)
+                for n in sorted({order + 1, order + 2, 8}):
+                    x = numpy.arange(n)
+                    X, Y = numpy.meshgrid(x, x, indexing="ij")
+                    P = lambda X, Y: 1 + 0.5 * X - 0.25 * Y + (0.1 * X * Y if order >= 1 else 0) + (0.03 * X ** 3 - 0.02 * X ** 2 * Y if order >= 3 else 0) + (1e-3 * Y ** 5 if order >= 5 else 0)
+                    for m in (19, 2 * n + 1):
+                        xs = numpy.linspace(0, n - 1, m)
+                        XX, YY = numpy.meshgrid(xs, xs, indexing="ij")
+                        got = fn(P(X, Y).astype(float), (m, m), order=order)
+                        if not numpy.allclose(got, P(XX, YY), rtol=1e-8, atol=1e-8):
+                            return bad("%s(order %d) does not reproduce a polynomial of degree <= order on a %dx%d array" % (fn.__name__, order, n, n), float(abs(got - P(XX, YY)).max()), 0.0)
         if fn(numpy.ones((5, 5)), 7).shape != (7, 7):
             return bad("%s does not accept a scalar newSize" % fn.__name__)
 
@@ -80,6 +81,16 @@ def chk_encircled(inp):
             x, y = PSF.encircled_energy(d, eeDiameter=False)
             if abs(y[0]) > 1e-12 or numpy.any(numpy.diff(y) < -1e-12) or y.max() > 1 + 1e-12 or y.min() < -1e-12:
                 return bad("encircled-energy curve does not start at 0 / decreases / exceeds 1 (size %d, %s)" % (size, kind), numpy.asarray(y).tolist())
+            # explicit centres: on a pixel corner, exactly on a pixel centre, off-grid
+            for cen in ((size / 2, size / 2), (size / 2 + 0.5, size / 2 + 0.5), (size / 2 - 1.5, size / 2 + 0.5), (size / 2 + 0.3, size / 2 - 0.2)):
+                xc, yc_ = PSF.encircled_energy(d, center=list(cen), eeDiameter=False)
+                if abs(yc_[0]) > 1e-12 or abs(xc[0]) > 1e-12 or numpy.any(numpy.diff(yc_) < -1e-12) or yc_.max() > 1 + 1e-12 or yc_.min() < -1e-12:
+                    return bad("encircled-energy curve about centre %s does not start at 0 / decreases / exceeds 1 (size %d, %s)" % (list(cen), size, kind), numpy.asarray(yc_).tolist()[:6])
+                for frac in (0.02, 0.5):
+                    dia = PSF.encircled_energy(d, fraction=frac, center=list(cen))
+                    k = int(numpy.argmin(abs(yc_ - frac)))
+                    if abs(dia - xc[k]) > 1e-12:
+                        return bad("reported diameter (centre %s) is not where the curve is closest to the requested fraction" % (list(cen),), float(dia), float(xc[k]))
             for frac in (0.1, 0.3, 0.5, 0.8):
                 dia = PSF.encircled_energy(d, fraction=frac)
                 k = int(numpy.argmin(abs(y - frac)))
